@@ -200,6 +200,7 @@ func c20one(w *W, kind, layout string, G, N, k int, mode string, idx int) {
 			}
 			defer f.Close()
 			buf := make([]byte, 32<<10)
+			nread := 0
 			for {
 				n, err := f.Read(buf)
 				fifoData = append(fifoData, buf[:n]...)
@@ -207,6 +208,10 @@ func c20one(w *W, kind, layout string, G, N, k int, mode string, idx int) {
 					return
 				}
 				time.Sleep(150 * time.Microsecond)
+				if nread++; nread == 3 || nread == 40 {
+					// the collector at the other end of the pipe stalls for a while (twice): the writer simply waits
+					time.Sleep(600 * time.Millisecond)
+				}
 			}
 		}()
 	} else {
